@@ -393,6 +393,7 @@ GssvxVerdict(ev, sc) ==
       epsExp == IF ty \in {"d", "z"} THEN -53 ELSE -24          \* dmach("E") = 2^-53, smach("E") = 2^-24
       rcNaN == Len(ev.rcond) = 5 /\ ev.rcond[5] = 99999
       refOn == solved /\ ev.fn = "gssvx" /\ ev.opts.IterRefine # 0
+      xfinite == Has(ev, "X1") /\ \A k \in 1..Len(ev.X1) : \A i \in 1..Len(ev.X1[k]) : FiniteTok(ev.X1[k][i], cplx)
       refOff == solved /\ ev.fn = "gssvx" /\ ev.opts.IterRefine = 0
       \* --- storage clauses (C07 / C08)
       haswork == Has(ev, "work")
@@ -438,7 +439,8 @@ GssvxVerdict(ev, sc) ==
         \cup (IF refOn /\ ev.steps > 5 THEN {"C13.more_than_five_steps"} ELSE {})
         \* (finiteness is demanded when the driver did not warn that the matrix is singular to working precision)
         \cup (IF refOn /\ condOn /\ info = 0 /\ ~rcNaN /\ (\E k \in 1..ev.nrhs : ~FiniteNonNeg(ev.ferr[k]) \/ ~FiniteNonNeg(ev.berr[k])) THEN {"C13.error_bounds_not_finite"} ELSE {})
-        \cup (IF refOn /\ (\E k \in 1..ev.nrhs : (Len(ev.ferr[k]) = 5 /\ ev.ferr[k][5] = 99999) \/ (Len(ev.berr[k]) = 5 /\ ev.berr[k][5] = 99999) \/ ev.ferr[k][1] < 0 \/ ev.berr[k][1] < 0)
+        \* (a returned X that is not finite has no backward error: that is a matter of C01 / C05 and of the type's range)
+        \cup (IF refOn /\ xfinite /\ (\E k \in 1..ev.nrhs : (Len(ev.ferr[k]) = 5 /\ ev.ferr[k][5] = 99999) \/ (Len(ev.berr[k]) = 5 /\ ev.berr[k][5] = 99999) \/ ev.ferr[k][1] < 0 \/ ev.berr[k][1] < 0)
               THEN {"C13.error_bounds_nan_or_negative"} ELSE {})
         \cup (IF refOn /\ ty \in {"d", "z"} /\ fact # 3 /\ fv.d2 /\ sv.allexact /\ (\E k \in 1..ev.nrhs : ev.berr[k] # <<0, 0>>)
               THEN {"C13.berr_nonzero_for_exact_solution"} ELSE {})
